@@ -283,6 +283,41 @@ func copWalk(d *concDoc) concOp {
 	}}
 }
 
+// sharedWalkOptions: ONE WalkOptions value used by several callers at the same time (a visitor kept in a package-level variable).
+// Its callbacks are stateless apart from what they record for the calling goroutine's caller.
+func sharedWalkOptions() *commonmark.WalkOptions {
+	return &commonmark.WalkOptions{
+		Pre: func(cur *commonmark.Cursor) bool {
+			c := currentCaller()
+			gate(c, sitePre, func() int {
+				cons := 1
+				if cur.Index() >= 0 && cur.Parent().Child(cur.Index()) != cur.Node() {
+					cons = 0
+				}
+				return digest([]byte(fmt.Sprint(kindCode(cur.Node()), cur.Node().Span(), cur.Index(), kindCode(cur.Parent()), cons)))
+			})
+			return kindCode(cur.Node()) != kCodeSpan
+		},
+		Post: func(cur *commonmark.Cursor) bool {
+			c := currentCaller()
+			gate(c, sitePost, func() int {
+				return digest([]byte(fmt.Sprint(kindCode(cur.Node()), cur.Node().Span(), cur.Index(), cur.ParentBlock() != nil)))
+			})
+			return true
+		},
+	}
+}
+
+func copWalkSharedOpts(d *concDoc, opts *commonmark.WalkOptions) concOp {
+	return concOp{name: "walk:shared-options", run: func(c *caller) int {
+		start := len(c.obs)
+		for _, b := range d.blocks {
+			commonmark.Walk(b.AsNode(), opts)
+		}
+		return digest([]byte(fmt.Sprint(c.obs[start:])))
+	}}
+}
+
 // copWalkAbort: user code that stops its traversal early (Post returns false while frames are pending).
 func copWalkAbort(d *concDoc, stopAt int) concOp {
 	return concOp{name: fmt.Sprintf("walk-abort:%d", stopAt), run: func(c *caller) int {
@@ -405,6 +440,14 @@ func opTuples(n int, src *inputSource, count int) [][]concOp {
 			d := docs[(k/4)%len(docs)]
 			preds := []string{"script", "gfm", "em-p"}
 			shared := &commonmark.HTMLRenderer{ReferenceMap: d.refs, FilterTag: gatingFilter(concPreds[preds[src.rng.Intn(3)]])}
+			if k%8 == 5 && !raceMode {
+				// every caller walks the shared tree through ONE WalkOptions value
+				opts := sharedWalkOptions()
+				for i := 0; i < n; i++ {
+					t = append(t, copWalkSharedOpts(d, opts))
+				}
+				break
+			}
 			for i := 0; i < n; i++ {
 				switch src.rng.Intn(6) {
 				case 0:
@@ -958,8 +1001,36 @@ func concRace(res *Result, dur time.Duration) *Result {
 		ip.Rewrite(sd.blocks[k])
 		return renderOne(sd.refs, sd.blocks[k])
 	})
+	// cold phase 3: all goroutines walk the same tree through ONE WalkOptions value whose callbacks touch nothing shared
+	// (a visitor kept in a package-level variable); each checks the cursor it is handed for consistency
+	var walkBad int32
+	pureOpts := &commonmark.WalkOptions{
+		Pre: func(c *commonmark.Cursor) bool {
+			if c.Index() >= 0 && c.Parent().Child(c.Index()) != c.Node() {
+				walkBad = 1 // only ever written when the property is already broken
+			}
+			return true
+		},
+		Post: func(c *commonmark.Cursor) bool { return true },
+	}
+	coldW := coldRounds(len(coldDocs), n, func(r, g int) uint32 {
+		for _, b := range coldDocs[r].blocks {
+			commonmark.Walk(b.AsNode(), pureOpts)
+		}
+		return 1
+	})
 	// the sequential references, computed afterwards on fresh parses of the same sources
 	var coldBad []string
+	if walkBad != 0 {
+		coldBad = append(coldBad, "a cursor handed to a callback of a WalkOptions value shared by concurrent walks was inconsistent (Parent().Child(Index()) != Node())")
+	}
+	for r := range coldW {
+		for g := range coldW[r] {
+			if coldW[r][g] != 1 {
+				coldBad = append(coldBad, "a walk through a shared WalkOptions value panicked")
+			}
+		}
+	}
 	{
 		twin := streamDoc(rewriteSrc)
 		tip := &commonmark.InlineParser{ReferenceMatcher: twin.refs}
